@@ -182,6 +182,72 @@ UNITS.append(Unit("bulk.loop_visitor", "visitor.c", defines=DT, enforce="visit",
     doc="per worker task: every popped chunk index goes to do_work_chunk exactly once, nothing else does, an optional is only "
         "read when engaged, and the task returns only after seeing its own and every neighbour's queue empty"))
 
+# ---- the generic (non-pool) bulk fallback of execution/algorithms/bulk.hpp ----
+GBULK = "libs/pika/execution/include/pika/execution/algorithms/bulk.hpp"
+from vx.lift import Rule, match_close
+
+
+class TryCatchEP(Rule):
+    """pika::detail::try_catch_exception_ptr([&]() { A }, [&](std::exception_ptr X) { B });
+    ->  try { A } catch (...) { int X = vx_current_exception(); B }
+    (copied from specs/C03/spec.py; contract of the helper proved there as unit errors.try_catch_exception_ptr: t once; c iff t threw, with that exception)"""
+
+    def __init__(self, n=None):
+        self.n = n
+
+    def apply(self, text):
+        k = 0
+        rx = re.compile(r"pika::detail::try_catch_exception_ptr\s*\(")
+        while True:
+            m = rx.search(text)
+            if not m:
+                break
+            op = m.end() - 1
+            cl = match_close(text, op)
+            inner = text[op + 1:cl]
+            m1 = re.match(r"\s*\[&\]\s*\(\s*\)\s*\{", inner)
+            if not m1:
+                raise LiftError("TryCatchEP: first argument is not a [&]() lambda")
+            a0 = m1.end() - 1
+            a1 = match_close(inner, a0, "{", "}")
+            m2 = re.match(r"\s*,\s*\[&\]\s*\(\s*std::exception_ptr\s+(\w+)\s*\)\s*\{", inner[a1 + 1:])
+            if not m2:
+                raise LiftError("TryCatchEP: second argument is not a [&](std::exception_ptr x) lambda")
+            b0 = a1 + 1 + m2.end() - 1
+            b1 = match_close(inner, b0, "{", "}")
+            if inner[b1 + 1:].strip():
+                raise LiftError("TryCatchEP: trailing text")
+            end = cl + 1
+            ms = re.match(r"\s*;", text[end:])
+            if ms:
+                end += ms.end()
+            text = text[:m.start()] + "try { %s } catch (...) { int %s = vx_current_exception(); %s }" % (
+                inner[a0 + 1:a1], m2.group(1), inner[b0 + 1:b1]) + text[end:]
+            k += 1
+        self.check(k, "TryCatchEP")
+        return text
+
+
+LOOP_GBULK = """
+__CPROVER_assigns(s, g_victim_calls, g_threw, g_exc, g_throw_at)
+__CPROVER_loop_invariant(0 <= s && s <= g_n && !g_threw && g_set_value == 0 && g_set_error == 0)
+__CPROVER_loop_invariant(g_victim_calls == ((g_victim >= 0 && g_victim < s) ? 1 : 0))
+__CPROVER_decreases(g_n - s)
+"""
+for (tn, tt, nd, sg, bits) in SHAPES:
+    UNITS.append(Unit("bulk.generic.set_value." + tn, "generic.c", defines=shape_defs(tt, nd, sg, bits), enforce="set_value",
+        lifts={"body": Lift(GBULK, r"void set_value\(Ts&&\.\.\. ts\) && noexcept", rules=[
+            Sub(r"auto r = std::move\(\*this\);", "struct bulk_receiver r = *self;", 1),
+            TryCatchEP(None),
+            Sub(r"for \(auto const& (\w+) : r\.shape\)", r"for (Shape \1 = shape_begin(&r); \1 != shape_end(&r); ++\1)", None),
+            Sub(r"PIKA_INVOKE\(r\.f, (\w+), ts\.\.\.\);", r"{ invoke_f(&r, \1, ts_pack); if (g_threw) VX_THROW_NOW; }", None),
+            Sub(r"std::forward<Ts>\(ts\)\.\.\.", "ts_pack", None),
+            Call(r"pika::execution::experimental::set_value", "recv_set_value({0}, {1})", None),
+            Call(r"pika::execution::experimental::set_error", "recv_set_error({0}, {1})", None),
+            TryCatch(None),
+        ], loops={1: LOOP_GBULK, "count": 1})},
+        funcs=[GBULK + ": bulk_detail::bulk_sender::bulk_receiver::set_value [Shape=%s]" % tt], min_obligations=10))
+
 META = {"trusted_base": [], "assumptions": [], "not_decided": []}
 
 STATIC = [
